@@ -44,3 +44,7 @@ lkc!(q, jump_back_short, V_BOOL, 20, 3, 5);
 lkc!(q, short_long_short, V_I64, 5, 40, 41);
 lkc!(q, negative_zero_16, V_BINARY2, -3, 0, 16);
 lkc!(t, jump_back_short, V_STRUCT_NEST, 30, 2, 31);
+crate::proof!{ #[kani::unwind(7)] fn c01_q_linked_zero_copy_without_len_unchecked() { linked::linked_zero_copy_without_len::<LUnchecked>() } }
+crate::proof!{ #[kani::unwind(7)] fn c01_t_linked_zero_copy_without_len_bin() { linked::linked_zero_copy_without_len::<LBin>() } }
+crate::proof!{ #[kani::unwind(7)] fn c01_t_linked_zero_copy_without_len_compact() { linked::linked_zero_copy_without_len::<LCompact>() } }
+crate::proof!{ #[kani::unwind(7)] fn c11_q_linked_zero_copy_without_len_unchecked() { linked::linked_zero_copy_without_len::<LUnchecked>() } }
